@@ -493,7 +493,11 @@ type c19session struct {
 }
 
 func (s *c19session) do(target string) webResp {
-	u, _ := url.Parse(target)
+	plain, _ := splitAbort(target)
+	u, err := url.Parse(plain)
+	if err != nil {
+		return webResp{Code: 400}
+	}
 	h := s.handlers[u.Path]
 	if h == nil {
 		return webResp{Code: 404}
